@@ -312,7 +312,7 @@ func topLevelEqs(hyps []*Term) map[*Term]*Term {
 			if a.Op != "var" {
 				return
 			}
-			if b.Op == "var" && b.id > a.id {
+			if b.Op == "var" && (canonName(b.Name) > canonName(a.Name) || (canonName(b.Name) == canonName(a.Name) && b.id > a.id)) {
 				a, b = b, a
 			}
 			if _, done := sub[a]; done {
